@@ -168,6 +168,18 @@ def main(seed, tier):
             fail("attributes", f"parsed attributes differ: {sorted(set(want) ^ set(have))}", rec)
         if ev.size != len(raw) - 2 * BLOCK:
             fail("attributes", f"size {ev.size}", rec)
+        # one Envelope object, several calls: a refused attempt (altered associated data, wrong key) and an earlier successful call
+        # must not change what the next call with the right key returns (no random draws here: the generated stream stays as it was)
+        hist = []
+        for k_, a_, ok_ in ((key, (aad or b"") + b"?", False), (key, aad, True), (bytes(32 - len(key[:31])) + key[:31], aad, False), (key, aad, True)):
+            try:
+                r_ = ev.decrypt(k_, aad=a_)
+                hist.append("ok" if r_ == payload else "wrong-bytes")
+            except Exception as e:  # noqa: BLE001
+                hist.append(f"raise:{type(e).__name__}")
+            evals += 1
+        if [h == "ok" for h in hist] != [False, True, False, True]:
+            fail("repeat", f"four decrypt calls on one Envelope object (altered aad, right, wrong key, right) gave {hist}; expected refusal, payload, refusal, payload", rec)
         # wrong key / wrong aad
         k2 = bytearray(key)
         k2[rng.randrange(32)] ^= 1 << rng.randrange(8)
